@@ -86,11 +86,22 @@ fn arg(st: &Step) -> usize {
     st.n.as_ref().map(unw).unwrap_or(1)
 }
 
+/// Runs a closure when dropped while the thread is unwinding (a "finish the work on drop" guard of a client).
+struct OnUnwind<'a>(Box<dyn Fn() + 'a>);
+impl Drop for OnUnwind<'_> {
+    fn drop(&mut self) {
+        if std::thread::panicking() {
+            (self.0)();
+        }
+    }
+}
+
 fn exec<'a, I>(
     run: &Arc<Run>,
     its: &'a [Option<I>],
     bufs: &mut [Option<BufFn<'a>>],
     st: &Step,
+    cloner: Option<fn(&I) -> I>,
 ) -> Value
 where
     I: ConcurrentIter + AtomicIter<<I as ConcurrentIter>::Item>,
@@ -162,6 +173,7 @@ where
                         visit(run, -1, None, v, p);
                         cnt += 1;
                         if cnt == pa {
+                            let _pull = unwind_guard(run, it, st.unwind);
                             panic!("probe: closure panics");
                         }
                     })
@@ -174,6 +186,7 @@ where
                         visit(run, 0, Some(i), v, p);
                         cnt += 1;
                         if cnt == pa {
+                            let _pull = unwind_guard(run, it, st.unwind);
                             panic!("probe: closure panics");
                         }
                     })
@@ -193,6 +206,7 @@ where
                     acc.push(v);
                     cnt += 1;
                     if cnt == pa {
+                        let _pull = unwind_guard(run, it, st.unwind);
                         panic!("probe: closure panics");
                     }
                     acc
@@ -227,6 +241,22 @@ where
             counted(|| it.skip_to_end());
             unit()
         }
+        "cloneuse" => match cloner {
+            None => json!({"k":"noiter"}),
+            Some(f) => {
+                // clone the shared iterator while others pull from it, then drain the clone
+                let c = counted(|| f(it));
+                let mut vals = vec![];
+                while let Some(x) = counted(|| ConcurrentIter::next(&c)) {
+                    vals.push(obs_item(run, x).0);
+                    if vals.len() > TAKE_CAP {
+                        break;
+                    }
+                }
+                counted(|| drop(c));
+                json!({"k":"cloneseq","vals":vals})
+            }
+        },
         "len" => match counted(|| it.try_get_len()) {
             None => json!({"k":"len","some":false,"v":0}),
             Some(v) => json!({"k":"len","some":true,"v":w(v)}),
@@ -259,6 +289,25 @@ where
     }
 }
 
+/// while the calling thread unwinds, its guard pulls once more from the iterator (and reports what it got)
+fn unwind_guard<'a, I>(run: &'a Arc<Run>, it: &'a I, armed: bool) -> Option<OnUnwind<'a>>
+where
+    I: ConcurrentIter,
+    I::Item: Obs,
+{
+    if !armed {
+        return None;
+    }
+    Some(OnUnwind(Box::new(move || {
+        let r = counted(|| ConcurrentIter::next(it));
+        let _g = Flag::off();
+        if let Some(x) = r {
+            let (v, p) = obs_item(run, x);
+            visit(run, -1, None, v, p);
+        }
+    })))
+}
+
 fn panic_msg(p: &Box<dyn std::any::Any + Send>) -> String {
     if let Some(s) = p.downcast_ref::<&str>() {
         s.to_string()
@@ -275,7 +324,7 @@ fn call_event(tid: usize, st: &Step) -> Value {
 }
 
 /// Runs a straight-line program of `&self` operations; used by workers and by the owner thread.
-fn run_prog<'a, I>(run: &Arc<Run>, tid: usize, its: &'a [Option<I>], prog: &[Step])
+fn run_prog<'a, I>(run: &Arc<Run>, tid: usize, its: &'a [Option<I>], prog: &[Step], cloner: Option<fn(&I) -> I>)
 where
     I: ConcurrentIter + AtomicIter<<I as ConcurrentIter>::Item>,
     I::Item: Obs,
@@ -291,10 +340,7 @@ where
             }
         }
         run.emit(ce);
-        if st.op == "cloneelem_panic" {
-            CLONE_PANIC.with(|c| c.set(st.panic_at));
-        }
-        let res = match catch_unwind(AssertUnwindSafe(|| exec(run, its, &mut bufs, st))) {
+        let res = match catch_unwind(AssertUnwindSafe(|| exec(run, its, &mut bufs, st, cloner))) {
             Ok(v) => v,
             Err(p) => {
                 if p.is::<Poison>() {
@@ -333,7 +379,7 @@ fn owner_phase<I>(
             j += 1;
         }
         if j > i {
-            run_prog(run, 0, &its[..], &prog[i..j]);
+            run_prog(run, 0, &its[..], &prog[i..j], cloner);
         }
         if j < prog.len() {
             let st = &prog[j];
@@ -434,7 +480,7 @@ where
                 let prog = &sc.threads[t - 1];
                 s.spawn(move || {
                     enter(&run, t, true);
-                    let r = catch_unwind(AssertUnwindSafe(|| run_prog(&run, t, its_ref, prog)));
+                    let r = catch_unwind(AssertUnwindSafe(|| run_prog(&run, t, its_ref, prog, cloner)));
                     if r.is_ok() {
                         done();
                     }
@@ -513,12 +559,12 @@ macro_rules! with_array {
 
 pub fn family(kind: &str) -> &'static str {
     match kind {
-        "iter" | "refiter" | "numrefiter" | "cloned_iter" | "copied_iter" => "ticket",
+        "iter" | "iter_h" | "refiter" | "numrefiter" | "cloned_iter" | "copied_iter" => "ticket",
         _ => "counter",
     }
 }
 pub fn consuming(kind: &str) -> bool {
-    matches!(kind, "vec" | "array" | "iter")
+    matches!(kind, "vec" | "array" | "iter" | "vec_zst" | "array_zst" | "vec_h" | "iter_h")
 }
 
 /// Runs one scenario and returns its trace lines.
@@ -540,10 +586,11 @@ pub fn run_scenario(sc: &Scenario, idx: usize) -> (Vec<String>, Meta) {
         // a size hint of (0, Some(0)) is exact whatever the probe calls it
         "hint": if sc.hint.is_empty() || (sc.hint == "inexact" && len == 0) {"exact"} else {sc.hint.as_str()},
         "len":len,"src":src_vals,"start":w(start),"end":w(end),"threads":n,"profile":profile,
-        "consuming":consuming(&sc.kind),"pnext":sc.panic_next,"revive":sc.revive,"dpanic":sc.drop_panic,"tag":if sc.tag.is_null() {json!("")} else {sc.tag.clone()}}));
+        "consuming":consuming(&sc.kind),"pnext":sc.panic_next,"revive":sc.revive,"dpanic":sc.drop_panic,"cpanic":sc.clone_panic,"tag":if sc.tag.is_null() {json!("")} else {sc.tag.clone()}}));
     run.emit(json!({"e":"Mem","at":"start","live":alloc::live()}));
     let hint = Hint::parse(&sc.hint);
     DROP_PANIC_ID.store(sc.drop_panic, Ordering::Relaxed);
+    CLONE_PANIC.store(sc.clone_panic, Ordering::SeqCst);
     let meta = match catch_unwind(AssertUnwindSafe(|| match sc.kind.as_str() {
         "slice" => {
             let src = counted(|| toks(len));
@@ -604,8 +651,46 @@ pub fn run_scenario(sc: &Scenario, idx: usize) -> (Vec<String>, Meta) {
             }
             with_array!(len, v, go, [0, 1, 2, 3, 4, 5, 6, 8])
         }
+        "vec_h" => {
+            let src: Vec<HTok> = counted(|| (0..len).map(|i| HTok::new(BASE_VAL + i)).collect());
+            let it = counted(|| src.into_con_iter());
+            drive(&run, sc, it, None)
+        }
+        "iter_h" => {
+            let p = counted(|| ProbeIter::<HTok> {
+                items: (0..len).map(|i| HTok::new(BASE_VAL + i)).collect::<VecDeque<_>>(),
+                core: ProbeCore::new(0, hint, sc.panic_next),
+                revive: sc.revive,
+                next_id: BASE_VAL + len,
+                none_seen: false,
+            });
+            let it = counted(|| p.into_con_iter());
+            drive(&run, sc, it, None)
+        }
+        "vec_zst" => {
+            ZSEQ.store(0, Ordering::SeqCst);
+            let src: Vec<Zt> = (0..len).map(|_| Zt).collect();
+            let it = counted(|| src.into_con_iter());
+            drive(&run, sc, it, None)
+        }
+        "array_zst" => {
+            ZSEQ.store(0, Ordering::SeqCst);
+            macro_rules! goz {
+                ($($n:literal),*) => {
+                    match len {
+                        $($n => {
+                            let a: [Zt; $n] = std::array::from_fn(|_| Zt);
+                            let it = counted(|| a.into_con_iter());
+                            drive(&run, sc, it, None)
+                        })*
+                        _ => panic!("unsupported array length"),
+                    }
+                };
+            }
+            goz!(0, 1, 2, 3, 4, 5, 6, 8)
+        }
         "iter" => {
-            let p = counted(|| ProbeIter {
+            let p = counted(|| ProbeIter::<Tok> {
                 items: toks(len).into_iter().collect::<VecDeque<_>>(),
                 core: ProbeCore::new(0, hint, sc.panic_next),
                 revive: sc.revive,
@@ -717,6 +802,7 @@ pub fn run_scenario(sc: &Scenario, idx: usize) -> (Vec<String>, Meta) {
         },
     };
     DROP_PANIC_ID.store(0, Ordering::Relaxed);
+    CLONE_PANIC.store(0, Ordering::SeqCst);
     if !meta.hang && sc.freeze.is_none() {
         run.emit(json!({"e":"Mem","at":"end","live":alloc::live()}));
     }
